@@ -77,6 +77,75 @@ func storeProp(level string, quick, thorough int, rule string) propSpec {
 	return propSpec{Engine: "storesim", Level: level, Batch: 1, QuickSec: quick, ThorSec: thorough, Rule: rule, Assume: storeAssume, Real: storeReal, Stub: storeStub}
 }
 
+// A lane is one way of running cases of a property: an engine binary built in a build variant, with
+// an optional profile name handed to the worker. Entries of propSpec.Variants are either names of
+// build variants (same engine) or "lane:<engine>:<profile>[:<every>]" - a second engine for the same
+// property (e.g. the proxy against real stores next to the proxy against scripted stubs), used for
+// every <every>-th chunk of seeds (default 4).
+type lane struct {
+	key     string // what is recorded as "variant" in results and replay files
+	engine  string
+	variant string
+	profile string
+	batch   int
+	every   int
+}
+
+func parseLane(key string, spec propSpec) lane {
+	if strings.HasPrefix(key, "lane:") {
+		parts := strings.Split(key, ":")
+		l := lane{key: key, engine: parts[1], variant: "default", batch: 1, every: 4}
+		if len(parts) > 2 {
+			l.profile = parts[2]
+		}
+		if len(parts) > 3 {
+			if n, err := strconv.Atoi(parts[3]); err == nil && n > 0 {
+				l.every = n
+			}
+		}
+		return l
+	}
+	return lane{key: key, engine: spec.Engine, variant: key, batch: spec.Batch}
+}
+
+// laneSchedule returns the repeating sequence in which chunks of seeds are dealt to the lanes.
+func laneSchedule(spec propSpec) []lane {
+	var plain, extra []lane
+	plain = append(plain, parseLane("default", spec))
+	for _, v := range spec.Variants {
+		if l := parseLane(v, spec); l.profile != "" {
+			extra = append(extra, l)
+		} else {
+			plain = append(plain, l)
+		}
+	}
+	if len(extra) == 0 {
+		return plain
+	}
+	var out []lane
+	period := 1
+	for _, l := range extra {
+		period *= l.every
+	}
+	period = max(period, len(plain)) * len(plain)
+	pi := 0
+	for i := 0; i < period; i++ {
+		used := false
+		for _, l := range extra {
+			if i%l.every == l.every-1 {
+				out = append(out, l)
+				used = true
+				break
+			}
+		}
+		if !used {
+			out = append(out, plain[pi%len(plain)])
+			pi++
+		}
+	}
+	return out
+}
+
 func withVariants(p propSpec, variants ...string) propSpec {
 	p.Variants = variants
 	return p
@@ -87,6 +156,13 @@ func clusterProp(quick, thorough int, rule string) propSpec {
 	p.Real = append([]string{"proxy/bulk.SeqDBClient", "proxy/search.Ingestor (+ docs iterators)", "network/circuitbreaker"}, storeReal...)
 	p.Stub = append([]string{"transport = simnet (handlers called on a task of the target node, messages deep-copied, seeded latencies)"}, storeStub...)
 	return p
+}
+
+func init() { // lanes: components of the second engines
+	p := props["C19"]
+	p.Real = append([]string{"second lane (every 3rd chunk): proxy/search.Ingestor asynchronous fan-out (StartAsyncSearch, FetchAsyncSearchResult), bulk.SeqDBClient, network/circuitbreaker over real stores"}, p.Real...)
+	p.Stub = append([]string{"transport = simnet (second lane)"}, p.Stub...)
+	props["C19"] = p
 }
 
 const ntRule = "; non-trivial = at least one fault fired or the seeded scheduler pre-empted a runnable task; distinct = distinct (interleaving hash, event-log digest)"
@@ -109,16 +185,17 @@ var props = map[string]propSpec{
 		Rule: "one case = an ES bulk body from a grammar (action/document lines, valid object documents with escapes/unicode/nesting, non-objects, invalid JSON, over-size lines, empty lines, CRLF, unknown actions, missing final newline, body cut at byte k, read error at byte k, gzip) handed to the real BulkHandler.ServeHTTP -> real bulk.Ingestor (processor, indexer, tokenizers) -> capturing StorageClient, at a simulated clock; document times at -drift-1s, -drift, -drift+1s, +future-1s, +future, +future+1s and far; the same body is delivered four times with different chunkings of the reader (whole, byte by byte, two seeded chunkings); oracle = independent framing parser + time rule; the outcome must be identical for every chunking; in 40% of the cases all deliveries go through one long-lived ingestor with the simulated clock advancing 0 ms .. 2 x drift between them (pooled per-request state meets requests of different times); in 30% a concurrent phase follows: 2-4 requests (documents marked with their request number) at once on one handler, optionally after a request whose store call failed, the body reader yielding at every Read under the seeded scheduler: every request must get the outcome of its own body and every storage call must carry the documents of exactly one request; non-trivial = always (every case exercises the stream); distinct = distinct (status counts, interleaving hash)",
 		Assume: []string{"document lines stay clear of the size limit itself (50 bytes below / 10 above): the boundary behaviour of the limit depends on the line terminator and is not part of the property", "valid/invalid JSON judged by encoding/json on clear-cut cases"},
 		Real:   []string{"proxyapi.BulkHandler (esBulkDocReader, gzip, response)", "proxy/bulk.Ingestor, processor, indexer", "tokenizer", "frac.DocsMetasCompressor"}, Stub: []string{"storage = capturing StorageClient that decodes the payload", "request body = seeded chunk reader", "clock = synctest fake clock"}},
-	"C16": {Engine: "proxysim", Level: "fault_enumeration", Batch: 300, QuickSec: 30, ThorSec: 600,
+	"C16": {Engine: "proxysim", Level: "fault_enumeration", Batch: 300, QuickSec: 45, ThorSec: 600,
 		Rule: "one case = topology 1-3 shards x 1-3 replicas (+ optional long-term tier), real search.Ingestor (searchStores/searchShard, MergeQPRs, pagination, FetchDocsStream, merged docs iterators) over scripted stub stores answering from their slice of a model corpus; per call: ok, error, wants-old-data, too-many-fractions, with seeded latencies that decide the arrival order of shard replies; per fetch stream: ok, error, break after k, missing document, 1-3 unrequested or duplicated entries, swapped entries; 1-4 requests per run (offset/size/order/fetch); oracle: error, or ids = correct merged top over exactly the shards that had an answering replica, flagged partial iff some shard had none, long-term tier consulted iff a hot store wants old data, i-th document is the document of the i-th id, or empty only if some fetch call that was asked for it did not deliver it (failed call, broken stream before the entry, empty or reordered entry); a panic inside the proxy is treated as the error response its recovery interceptor produces; non-trivial = a non-ok outcome fired or the scheduler pre-empted; distinct = distinct (interleaving hash, fired outcome counts)",
 		Assume: []string{"stub stores answer searches correctly for their own slice when scripted ok"},
-		Real:   []string{"proxy/search.Ingestor", "proxy/search docs iterators (grpc stream, merged, position based)", "seq.MergeQPRs"}, Stub: []string{"stores = scripted StoreApiClient stubs", "clock = synctest fake clock", "scheduling = verifsim"}},
+		Real:   []string{"proxy/search.Ingestor", "proxy/search docs iterators (grpc stream, merged, position based)", "seq.MergeQPRs", "second lane (every 3rd chunk): the same proxy code plus bulk.SeqDBClient against real stores (fracmanager, frac, storeapi.GrpcV1) with a hot tier under size-based retention and a long-term tier"}, Stub: []string{"stores = scripted StoreApiClient stubs (first lane)", "transport = simnet (second lane)", "clock = synctest fake clock", "scheduling = verifsim"},
+		Variants: []string{"lane:storesim:cluster-c16:3"}},
 	"C18": {Engine: "cachesim", Level: "exploration", Batch: 500, QuickSec: 30, ThorSec: 600,
 		Rule: "one case = 2-6 caller tasks issuing Get/GetWithError (loader parks at scheduling points, returns a size, fails or panics), Release and NewCache over 1-4+ caches sharing one Cleaner, plus one cleaner task running Rotate/Cleanup/CleanEmptyGenerations+ReleaseBuckets; seeded scheduler pre-empts at every lock/WaitGroup operation and at statement level inside cache.go/cleaner.go; invariants per call, accounting/bucket/limit invariants at quiescence, porcupine linearizability of the lookup history against a register-with-eviction model; build variant tiny (recreateThreshold 4, excessiveSizeFactor 2 instead of 200 and 10) in half of the runs so that the map re-creation of Cleanup is reached with a handful of keys; non-trivial = the scheduler pre-empted a runnable task; distinct = distinct interleaving hash",
 		Assume: []string{"a cache is released only when no lookup on it is in flight (seq-db releases under the fraction's write lock, lookups hold its read lock)", "the cleaner methods are called from one task, as CacheMaintainer does"},
 		Real:   []string{"cache.Cache", "cache.Cleaner"}, Stub: []string{"loaders are harness code", "goroutine scheduling = verifsim seeded scheduler"},
 		Variants: []string{"tiny"}},
-	"C19": storeProp("fault_enumeration", 45, 600, "one case = 2-5 fractions (active+sealed), 1-3 asynchronous searches (query+histogram+aggregations), planned crash at the k-th rename of *.qpr / *.info, write to *.tmp or any mutating op, power loss/kill/stop, restart; the request must be known, finish within one simulated hour and equal the synchronous search and the model; request ids are random version-4 UUIDs; in 30% of the cases group-by values look like the key syntax of persisted partial results (\"200|/api\", \"12|\", \"0|alpha\")"+ntRule),
+	"C19": withVariants(storeProp("fault_enumeration", 45, 600, "one case = 2-5 fractions (active+sealed), 1-3 asynchronous searches (query+histogram+aggregations), planned crash at the k-th rename of *.qpr / *.info, write to *.tmp or any mutating op, power loss/kill/stop, restart; the request must be known, finish within one simulated hour and equal the synchronous search and the model; request ids are random version-4 UUIDs; in 30% of the cases group-by values look like the key syntax of persisted partial results (\"200|/api\", \"12|\", \"0|alpha\"); second lane (every 3rd chunk): the proxy's StartAsyncSearch/FetchAsyncSearchResult fan-out over 1-3 shards x 1-2 replicas of real stores on simnet, stores killed / losing power / partitioned and restarted while the searches run and are polled: a response that says done without error must equal the model, and once every store is back the search must become done within one simulated hour"+ntRule), "lane:storesim:cluster-c19:3"),
 }
 
 type knownEntry struct {
@@ -209,6 +286,7 @@ type build struct {
 	scratch string
 	bin     string
 	report  map[string]any
+	profile string // worker profile of the lane this build serves ("" for plain lanes)
 }
 
 func (b *build) cleanup() {
@@ -422,15 +500,19 @@ func cmdCheck(args []string) int {
 		fatal2("no check for property %q", prop)
 	}
 	start := time.Now()
-	variants := append([]string{"default"}, spec.Variants...)
+	sched := laneSchedule(spec)
 	builds := map[string]*build{}
-	for _, v := range variants {
-		bv, err := buildEngine(spec.Engine, v)
+	for _, l := range sched {
+		if builds[l.key] != nil {
+			continue
+		}
+		bv, err := buildEngine(l.engine, l.variant)
 		if err != nil {
 			fatal2("%v", err)
 		}
 		defer bv.cleanup()
-		builds[v] = bv
+		bv.profile = l.profile
+		builds[l.key] = bv
 	}
 	b := builds["default"]
 	budget := time.Duration(spec.QuickSec) * time.Second
@@ -467,9 +549,10 @@ func cmdCheck(args []string) int {
 				i := next
 				next += spec.Batch
 				mu.Unlock()
-				// seeds are dealt to the build variants round robin
-				variant := variants[(i/spec.Batch)%len(variants)]
-				job := map[string]any{"mode": "gen", "property": prop, "seed": seedFor(f.seed, i), "thorough": f.tier == "thorough", "count": spec.Batch}
+				// chunks of seeds are dealt to the lanes (build variants, second engines) in a fixed rotation
+				ln := sched[(i/spec.Batch)%len(sched)]
+				variant := ln.key
+				job := map[string]any{"mode": "gen", "property": prop, "seed": seedFor(f.seed, i), "thorough": f.tier == "thorough", "count": ln.batch, "profile": ln.profile}
 				rs, err := runWorker(builds[variant].bin, job, 180*time.Second)
 				mu.Lock()
 				if err != nil {
@@ -570,7 +653,7 @@ func reportViolation(b *build, prop string, v *result) string {
 	file["case"] = c
 	stable := 0
 	for i := 0; i < 3; i++ {
-		r, err := replayCase(b.bin, prop, v.caseJSON)
+		r, err := replayCase(b, prop, v.caseJSON)
 		if err == nil && r.Outcome == "violation" && r.clause() == v.clause() {
 			stable++
 		}
@@ -580,13 +663,13 @@ func reportViolation(b *build, prop string, v *result) string {
 	if stable < 3 {
 		return orig
 	}
-	min := minimise(b.bin, prop, v.caseJSON, v.clause())
+	min := minimise(b, prop, v.caseJSON, v.clause())
 	if min == nil {
 		return orig
 	}
 	var mc any
 	decodeJSON(min, &mc)
-	r, err := replayCase(b.bin, prop, min)
+	r, err := replayCase(b, prop, min)
 	if err != nil || r.Outcome != "violation" {
 		return orig
 	}
@@ -607,12 +690,12 @@ func writeJSON(path string, v any) {
 	os.WriteFile(path, data, 0o644)
 }
 
-func replayCase(bin, prop string, caseJSON []byte) (*result, error) {
+func replayCase(b *build, prop string, caseJSON []byte) (*result, error) {
 	var c any
 	if err := decodeJSON(caseJSON, &c); err != nil {
 		return nil, err
 	}
-	rs, err := runWorker(bin, map[string]any{"mode": "replay", "property": prop, "case": c}, 180*time.Second)
+	rs, err := runWorker(b.bin, map[string]any{"mode": "replay", "property": prop, "case": c, "profile": b.profile}, 180*time.Second)
 	if err != nil {
 		return nil, err
 	}
@@ -783,12 +866,14 @@ func cmdReplay(args []string) int {
 	if file.Variant == "" {
 		file.Variant = "default"
 	}
-	b, err := buildEngine(spec.Engine, file.Variant)
+	ln := parseLane(file.Variant, spec)
+	b, err := buildEngine(ln.engine, ln.variant)
 	if err != nil {
 		fatal2("%v", err)
 	}
 	defer b.cleanup()
-	r, err := replayCase(b.bin, file.Property, file.Case)
+	b.profile = ln.profile
+	r, err := replayCase(b, file.Property, file.Case)
 	if err != nil {
 		fatal2("%v", err)
 	}
@@ -818,11 +903,21 @@ func cmdSelftest(args []string) int {
 	if f.seeds == 0 {
 		f.seeds = 30
 	}
-	b, err := buildEngine(spec.Engine, "default")
-	if err != nil {
-		fatal2("%v", err)
+	// every lane of the property (build variants, second engines) takes part: seed i runs on lane i mod n
+	var lanes []lane
+	builds := map[string]*build{}
+	for _, l := range laneSchedule(spec) {
+		if builds[l.key] != nil {
+			continue
+		}
+		bv, err := buildEngine(l.engine, l.variant)
+		if err != nil {
+			fatal2("%v", err)
+		}
+		defer bv.cleanup()
+		builds[l.key] = bv
+		lanes = append(lanes, l)
 	}
-	defer b.cleanup()
 	type key struct {
 		seed uint64
 	}
@@ -833,13 +928,15 @@ func cmdSelftest(args []string) int {
 	var errs []string
 	for i := 0; i < f.seeds; i++ {
 		seed := seedFor(f.seed, i)
+		ln := lanes[i%len(lanes)]
+		b := builds[ln.key]
 		for _, procs := range []string{"1", "4", "16"} {
 			wg.Add(1)
 			sem <- struct{}{}
 			go func() {
 				defer wg.Done()
 				defer func() { <-sem }()
-				rs, err := runWorker(b.bin, map[string]any{"mode": "gen", "property": prop, "seed": seed, "count": 1}, 180*time.Second, "GOMAXPROCS="+procs)
+				rs, err := runWorker(b.bin, map[string]any{"mode": "gen", "property": prop, "seed": seed, "count": 1, "profile": ln.profile}, 180*time.Second, "GOMAXPROCS="+procs)
 				mu.Lock()
 				defer mu.Unlock()
 				if err != nil {
@@ -861,7 +958,7 @@ func cmdSelftest(args []string) int {
 			fmt.Printf("NONDETERMINISTIC seed=%d: %v\n", seed, m)
 		}
 	}
-	fmt.Printf("selftest %s: %d seeds x 3 processes (GOMAXPROCS 1/4/16), %d diverged, %d errors\n", prop, len(digests), bad, len(errs))
+	fmt.Printf("selftest %s: %d seeds x 3 processes (GOMAXPROCS 1/4/16) over %d lanes, %d diverged, %d errors\n", prop, len(digests), len(lanes), bad, len(errs))
 	for _, e := range errs {
 		fmt.Println("error:", firstLine(e))
 	}
